@@ -326,8 +326,39 @@ class Concatenation(SubCheck):
         return out
 
 
+def refused_check(svg):
+    """an append that is refused without retaining anything, followed by ordinary appends: Path(a) + b == Path(a b) still"""
+    from props import failsafe
+    sc = []
+    conts = ["l 2,2 h3 z", "m 1,1 l 1,0 z", "M5,5 L6,6", "t 4,4", "z l1,1", "L 7,7 Z", "q1,1 2,0 t2,0"]
+    for a in ("M0,0 L1,1", "M3,-2 Q7,5 -4,1.5", "M1,1 L2,2 z"):
+        for bad in ("L 3", "Q 1", "h", "x", "A 1 1 0 0", "M"):
+            for entry in ("+=", "parse"):
+                def attempt(p, bad=bad, entry=entry):
+                    if entry == "+=":
+                        p += bad
+                    else:
+                        p.parse(bad)
+
+                def follow(p, a=a, entry=entry):
+                    res = []
+                    for b in conts:
+                        q = svg.Path(p)
+                        if entry == "+=":
+                            q += b
+                        else:
+                            q.parse(b)
+                        res.append([repr(s) for s in q])
+                    p += conts[0]
+                    res.append([repr(s) for s in p])
+                    return res
+                sc.append(dict(name="Path(%r) %s %r" % (a, entry, bad), fresh=(lambda a=a: svg.Path(a)), attempt=attempt,
+                               follow={"continuations": follow}))
+    return failsafe.Refused(svg, sc)
+
+
 def build(tier, seed, svg):
-    return [Splits(svg, tier, seed), Concatenation(svg, tier, seed)]
+    return [Splits(svg, tier, seed), Concatenation(svg, tier, seed), refused_check(svg)]
 
 
 MATCHERS = {}
